@@ -6,12 +6,7 @@ From Soy Require Import Model.Bytes Model.Num Model.Values Model.Outcome Model.A
 Open Scope N_scope.
 
 (* ---- the three texts ---- *)
-Definition go_dir_text (d : pdir) (s : bstr) : bstr := match d with PEscapeHtml => tmpl_html_escape s | _ => s end.
-Fixpoint go_dirs_text (ds : list pdir) (s : bstr) : bstr :=
-  match ds with [] => s | d :: r => go_dirs_text r (go_dir_text d s) end.
-(* what the Go renderer writes for {print e|ds} when String() of the value is s *)
-Definition go_print_text (mode : N) (ds : list pdir) (s : bstr) : bstr :=
-  match ds with [] => if mode =? 2 then s else html_escape s | _ => go_dirs_text ds s end.
+(* go_dir_text / go_dirs_text / go_print_text (what the Go renderer writes) are in Model/MiniJS.v *)
 
 Definition js_dir_text (d : pdir) (s : bstr) : bstr := match d with PEscapeHtml => js_escape_html s | _ => s end.
 Fixpoint js_dirs_text (ds : list pdir) (s : bstr) : bstr :=
@@ -125,7 +120,8 @@ Lemma interp_print_dirs cf e ds fuel st v s :
   ceval (c_ij cf) (sc_lookup (ctx st)) e = Some v -> v <> VUndef -> value_string v = Ok s ->
   exists st' ws, walk cf fuel (NPrint 0 (cnode e) (map pdir_node ds)) st = (Ok VUndef, st')
               /\ out st' = rev ws ++ out st /\ concat_b ws = go_print_text (mode st) ds s
-              /\ ctx st' = ctx st /\ mode st' = mode st.
+              /\ ctx st' = ctx st /\ mode st' = mode st
+              /\ bufs st' = [] /\ calls_left st' = None /\ bytes_left st' = None.
 Proof.
   intros Hob Hb Hcl Hbl Hce Hci Hf E Hv Hs.
   destruct fuel as [|f]; [lia|]. cbn [walk]. unfold walk_body. unfold mbind at 1. cbn [modify].
@@ -141,7 +137,7 @@ Proof.
     - cbn [go_dirs_text]. destruct (mode st =? 2); cbn [negb]; eexists; (split; [reflexivity|]). cbn. apply app_nil_r. reflexivity.
     - eexists. split; [reflexivity|]. cbn. apply app_nil_r. }
   destruct Hws as (ws & Hw & Hcat).
-  destruct (write_all_ok ws st2) as (st3 & E3 & O3 & C3 & M3 & _); try congruence.
+  destruct (write_all_ok ws st2) as (st3 & E3 & O3 & C3 & M3 & B3 & L3 & Y3); try congruence.
   assert (Hrest : (dsx <-- print_dirs cf (walk cf f) (map pdir_node ds);;;
                    s0 <-- lift (value_string v);;;
                    stx <-- get;;;
@@ -150,6 +146,106 @@ Proof.
   { unfold mbind at 1. rewrite (print_dirs_subset cf (walk cf f) ds st2 Hob). unfold mbind at 1. rewrite Hs. cbn [lift].
     unfold mbind at 1. cbn [get]. unfold mbind at 1. rewrite Hw. cbn [lift]. unfold mbind at 1. rewrite E3. reflexivity. }
   exists st3, ws. split; [destruct v; try congruence; exact Hrest|]. repeat split; congruence.
+Qed.
+
+(* ---- the writer in general: the innermost capture buffer of renderBlock, or the output ---- *)
+(* it does not fail: a capture buffer never does; the output does not when it has no budget of calls or bytes *)
+Definition wok (st : mstate) : Prop :=
+  match bufs st with [] => calls_left st = None /\ bytes_left st = None | _ => True end.
+(* st' is st after the writes ws (in order) *)
+Definition wrote (st st' : mstate) (ws : list bstr) : Prop :=
+  calls_left st' = calls_left st /\ bytes_left st' = bytes_left st /\
+  match bufs st with
+  | [] => bufs st' = [] /\ out st' = rev ws ++ out st
+  | b :: rest => bufs st' = (rev ws ++ b) :: rest /\ out st' = out st
+  end.
+(* nothing written, the writer untouched *)
+Definition wsame (st st' : mstate) : Prop :=
+  out st' = out st /\ bufs st' = bufs st /\ calls_left st' = calls_left st /\ bytes_left st' = bytes_left st.
+
+Lemma pres_wsame st st' : pres st st' -> wsame st st'.
+Proof. intros (_ & _ & O & B & C & Y). repeat split; assumption. Qed.
+Lemma wsame_refl st : wsame st st. Proof. repeat split. Qed.
+Lemma wsame_trans a c d : wsame a c -> wsame c d -> wsame a d.
+Proof. intros (A1 & A2 & A3 & A4) (B1 & B2 & B3 & B4). repeat split; congruence. Qed.
+Lemma wsame_wrote st st' : wsame st st' -> wrote st st' [].
+Proof. intros (O & B & C & Y). unfold wrote. rewrite C, Y. split; [reflexivity|]. split; [reflexivity|]. destruct (bufs st); cbn; auto. Qed.
+Lemma wrote_l a c d ws : wsame a c -> wrote c d ws -> wrote a d ws.
+Proof. intros (O & B & C & Y) (H1 & H2 & H3). unfold wrote. rewrite <- B, <- O, <- C, <- Y. auto. Qed.
+Lemma wrote_r a c d ws : wrote a c ws -> wsame c d -> wrote a d ws.
+Proof.
+  intros (H1 & H2 & H3) (O & B & C & Y). unfold wrote. rewrite O, B, C, Y. auto.
+Qed.
+Lemma wrote_trans a c d ws1 ws2 : wrote a c ws1 -> wrote c d ws2 -> wrote a d (ws1 ++ ws2).
+Proof.
+  intros (A1 & A2 & A3) (B1 & B2 & B3). unfold wrote. split; [congruence|]. split; [congruence|].
+  destruct (bufs a) as [|b rest].
+  - destruct A3 as [A3 A4]. rewrite A3 in B3. destruct B3 as [B3 B4]. split; [exact B3|]. rewrite B4, A4, rev_app_distr, app_assoc. reflexivity.
+  - destruct A3 as [A3 A4]. rewrite A3 in B3. destruct B3 as [B3 B4]. split; [rewrite B3, rev_app_distr, app_assoc; reflexivity|congruence].
+Qed.
+Lemma wrote_wok st st' ws : wrote st st' ws -> wok st -> wok st'.
+Proof.
+  intros (C & Y & H) W. unfold wok in *. destruct (bufs st) as [|b rest].
+  - destruct H as [H _]. rewrite H, C, Y. exact W.
+  - destruct H as [H _]. rewrite H. exact I.
+Qed.
+Lemma wsame_wok st st' : wsame st st' -> wok st -> wok st'.
+Proof. intros H. apply (wrote_wok st st' []). apply wsame_wrote; exact H. Qed.
+(* the special case of the output *)
+Lemma wrote_out st st' ws : bufs st = [] -> wrote st st' ws -> bufs st' = [] /\ out st' = rev ws ++ out st.
+Proof. intros Hb (_ & _ & H). rewrite Hb in H. exact H. Qed.
+
+Lemma write_wok w st : wok st -> exists st', write w st = (Ok tt, st') /\ wrote st st' [w] /\ ctx st' = ctx st /\ mode st' = mode st.
+Proof.
+  unfold wok, write, wrote. destruct (bufs st) as [|b rest] eqn:Eb.
+  - intros [Hc Hy]. rewrite Hc, Hy. eexists. split; [reflexivity|]. cbn. rewrite Eb. auto 10.
+  - intros _. eexists. split; [reflexivity|]. cbn. auto 10.
+Qed.
+Lemma write_all_wok ws : forall st, wok st ->
+  exists st', write_all ws st = (Ok tt, st') /\ wrote st st' ws /\ ctx st' = ctx st /\ mode st' = mode st.
+Proof.
+  induction ws as [|w r IH]; intros st W; cbn [write_all].
+  - exists st. split; [reflexivity|]. split; [apply wsame_wrote, wsame_refl|auto].
+  - destruct (write_wok w st W) as (st1 & E1 & W1 & C1 & M1). unfold mbind at 1. rewrite E1.
+    destruct (IH st1 (wrote_wok _ _ _ W1 W)) as (st2 & E2 & W2 & C2 & M2).
+    exists st2. split; [exact E2|]. split; [exact (wrote_trans _ _ _ [w] r W1 W2)|split; congruence].
+Qed.
+
+(* interp_print_dirs for any writer that does not fail *)
+Lemma interp_print_dirs_w cf e ds fuel st v s :
+  c_oblig cf = [] -> wok st ->
+  (forall k x, sc_lookup (ctx st) k = Some x -> core_value x = true) ->
+  (forall x, c_ij cf = Some x -> core_value x = true) ->
+  (S (cdepth e) < fuel)%nat ->
+  ceval (c_ij cf) (sc_lookup (ctx st)) e = Some v -> v <> VUndef -> value_string v = Ok s ->
+  exists st' ws, walk cf fuel (NPrint 0 (cnode e) (map pdir_node ds)) st = (Ok VUndef, st')
+              /\ wrote st st' ws /\ concat_b ws = go_print_text (mode st) ds s
+              /\ ctx st' = ctx st /\ mode st' = mode st.
+Proof.
+  intros Hob W Hce Hci Hf E Hv Hs.
+  destruct fuel as [|f]; [lia|]. cbn [walk]. unfold walk_body. unfold mbind at 1. cbn [modify].
+  set (st1 := set_cur st (pos_of (NPrint 0 (cnode e) (map pdir_node ds)))).
+  assert (P1 : pres st st1) by apply pres_set_cur.
+  destruct (interp_ceval cf st Hce Hci e f st1 v ltac:(lia) (pres_ctx _ _ P1) E) as (st2 & E2 & P2).
+  pose proof (pres_trans _ _ _ P1 P2) as P. pose proof P as (C & Mo & Ou & Bu & Cl & Bl).
+  cbn [walk_node]. unfold mbind at 1. rewrite E2.
+  set (text := go_print_text (mode st) ds s).
+  assert (Hws : exists ws, print_writes (mode st2) (map (fun d => (pdir_name d, @nil darg)) ds) s = Ok ws /\ concat_b ws = text).
+  { unfold print_writes. rewrite apply_directives_subset. cbn [bind]. subst text. unfold go_print_text. rewrite Mo.
+    destruct ds as [|d r].
+    - cbn [go_dirs_text]. destruct (mode st =? 2); cbn [negb]; eexists; (split; [reflexivity|]). cbn. apply app_nil_r. reflexivity.
+    - eexists. split; [reflexivity|]. cbn. apply app_nil_r. }
+  destruct Hws as (ws & Hw & Hcat).
+  destruct (write_all_wok ws st2 (wsame_wok _ _ (pres_wsame _ _ P) W)) as (st3 & E3 & W3 & C3 & M3).
+  assert (Hrest : (dsx <-- print_dirs cf (walk cf f) (map pdir_node ds);;;
+                   s0 <-- lift (value_string v);;;
+                   stx <-- get;;;
+                   wsx <-- lift (print_writes (mode stx) dsx s0);;; _ <-- write_all wsx;;; ret VUndef) st2
+                  = (Ok VUndef, st3)).
+  { unfold mbind at 1. rewrite (print_dirs_subset cf (walk cf f) ds st2 Hob). unfold mbind at 1. rewrite Hs. cbn [lift].
+    unfold mbind at 1. cbn [get]. unfold mbind at 1. rewrite Hw. cbn [lift]. unfold mbind at 1. rewrite E3. reflexivity. }
+  exists st3, ws. split; [destruct v; try congruence; exact Hrest|].
+  split; [exact (wrote_l _ _ _ _ (pres_wsame _ _ P) W3)|]. repeat split; congruence.
 Qed.
 
 (* ---- the generator: the chunks of the print statement ---- *)
@@ -232,19 +328,20 @@ Proof. induction k as [|k IH]; [reflexivity|]. cbn [rep app rev]. rewrite IH. ap
 Theorem cgen_print_dirs e ds fuel st : (S (cdepth e) < fuel)%nat ->
   exists stf, jwalk o fuel (NPrint 0 (cnode e) (map pdir_node ds)) st = Ok (tt, stf)
     /\ j_out stf = rev ([CText (indent_text (j_indent st)); CName (j_buf st); CText t_pluseq]
-                        ++ jprint (cgen_print_expr (j_auto st) ds (cgen (j_scope st) e)) ++ [CText t_semi_nl]) ++ j_out st.
+                        ++ jprint (cgen_print_expr (j_auto st) ds (cgen (j_scope st) e)) ++ [CText t_semi_nl]) ++ j_out st
+    /\ j_indent stf = j_indent st /\ j_buf stf = j_buf st /\ j_scope stf = j_scope st /\ j_auto stf = j_auto st /\ j_n stf = j_n st.
 Proof.
   intro Hf. destruct fuel as [|f]; [lia|]. rewrite jwalk_S. cbn [soydoc_flags].
   set (st1 := jset_cur None st).
-  assert (H1 : j_auto st1 = j_auto st /\ j_indent st1 = j_indent st /\ j_buf st1 = j_buf st /\ j_scope st1 = j_scope st /\ j_out st1 = j_out st)
-    by (subst st1; destruct st; cbn; auto).
-  destruct H1 as (A1 & I1 & B1 & S1 & O1). rewrite <- A1, <- I1, <- B1, <- S1, <- O1. clearbody st1.
+  assert (H1 : j_auto st1 = j_auto st /\ j_indent st1 = j_indent st /\ j_buf st1 = j_buf st /\ j_scope st1 = j_scope st /\ j_out st1 = j_out st /\ j_n st1 = j_n st)
+    by (subst st1; destruct st; cbn; auto 10).
+  destruct H1 as (A1 & I1 & B1 & S1 & O1 & N1). rewrite <- A1, <- I1, <- B1, <- S1, <- O1, <- N1. clearbody st1.
   cbn [jwalk_node]. unfold visit_print. erewrite jbind_ok; [|reflexivity].
   destruct (print_scan_subset ds (j_auto st1) [] st1) as (c & Es). erewrite jbind_ok; [|exact Es]. cbn [app].
   set (st2 := set_called c st1).
-  assert (H2 : j_auto st2 = j_auto st1 /\ j_indent st2 = j_indent st1 /\ j_buf st2 = j_buf st1 /\ j_scope st2 = j_scope st1 /\ j_out st2 = j_out st1)
-    by (subst st2; destruct st1; cbn; auto).
-  destruct H2 as (A2 & I2 & B2 & S2 & O2). rewrite <- I2, <- B2, <- S2, <- O2. clearbody st2.
+  assert (H2 : j_auto st2 = j_auto st1 /\ j_indent st2 = j_indent st1 /\ j_buf st2 = j_buf st1 /\ j_scope st2 = j_scope st1 /\ j_out st2 = j_out st1 /\ j_n st2 = j_n st1)
+    by (subst st2; destruct st1; cbn; auto 10).
+  destruct H2 as (A2 & I2 & B2 & S2 & O2 & N2). rewrite <- I2, <- B2, <- S2, <- O2, <- N2. clearbody st2.
   (* the directives kept: k explicit escapes, plus the implicit one *)
   set (k := length (filter is_esc ds)).
   assert (Hk : exists k', (if (match ds with [] => j_auto st1 | _ => 2 end) =? 2 then escs ds else escs ds ++ [(n_escapeHtml, [])])
@@ -260,9 +357,10 @@ Proof.
   erewrite jbind_ok; [|apply print_opens_escs].
   erewrite jbind_ok; [|apply cgen_print; lia].
   erewrite jbind_ok; [|apply print_closes_escs].
-  rewrite jtxt_out. eexists. split; [reflexivity|].
-  rewrite !j_out_st_out, j_out_st_after, !j_out_st_out, !scope_out, !buf_out. rewrite jprint_esc_n.
-  rewrite !app_assoc. rewrite <- !rev_app_distr. f_equal. f_equal. rewrite <- ?app_assoc. cbn [app]. reflexivity.
+  rewrite jtxt_out. eexists. split; [reflexivity|]. split.
+  - rewrite !j_out_st_out, j_out_st_after, !j_out_st_out, !scope_out, !buf_out. rewrite jprint_esc_n.
+    rewrite !app_assoc. rewrite <- !rev_app_distr. f_equal. f_equal. rewrite <- ?app_assoc. cbn [app]. reflexivity.
+  - unfold st_after, st_out. destruct st2; cbn. auto 10.
 Qed.
 End PrintChunks.
 
@@ -289,7 +387,7 @@ Proof.
     + intros k x Hk. pose proof (er_core _ _ _ _ ER k) as H. unfold env_val in H. rewrite Hk in H. exact H.
     + intros x Hx. exact (er_core_ij _ _ _ _ ER x Hx).
     + destruct v; try discriminate; discriminate.
-    + exists st', ws. exact H.
+    + exists st', ws. destruct H as (H1 & H2 & H3 & H4 & H5 & _). auto.
   - destruct (cgen_correct sc (c_ij cf) (sc_lookup (ctx st)) je ER e v E) as [Hj _].
     destruct (js_print_expr je (mode st) ds (cgen sc e) (to_js v) s Hj Ht) as (jv' & Ej & Tj).
     rewrite (print_text_agree (mode st) ds s (Hclean s Hs)) in Tj.
